@@ -242,3 +242,85 @@ def cached_tables_pure(ctx):
                 bad = {"2j": j2, "table": k}
     ctx.check("tables_unchanged", bad is None, clause="the cached tables of dfun.py hold the same values after their consumers ran as before (no in-place modification of a cached object)",
               detail=str(bad), witness=bad)
+
+
+def _hel_variants(j2, rng):
+    j = Fraction(j2, 2)
+    full = [j - j2 + k for k in range(j2 + 1)]
+    out = [full, full[::-1], [full[0], full[-1]], [h for h in full if h != 0] or full, full[1:] or full, full[:-1] or full]
+    sh = list(full)
+    rng.shuffle(sh)
+    out.append(sh)
+    if len(full) > 2:
+        out.append(full[1:] + full[:1])  # rotated: full length, not ascending
+    uniq = []
+    for v in out:
+        if v not in uniq:
+            uniq.append(v)
+    return uniq
+
+
+def _mk_lambda_selection(j2):
+    def g(ctx):
+        """for an ARBITRARY complex matrix X in the place of conj D^j (handed over through the cache slot of the angle dictionary):
+        get_D_matrix_lambda(angle, j, la, lb)[e, i, k] == X[e, la_i, lb_k]  and  (.., lc)[e, i, k, l] == X[e, la_i, lb_k - lc_l] or 0 when |lb_k - lc_l| > j,
+        addressed by helicity VALUE, for every ordering / sub-list of helicities"""
+        import numpy as np
+
+        from vt.core import shim_tf as shim
+
+        dfun = ctx.mod("dfun")
+        n = j2 + 1
+        X = shim.sym_complex_tensor("X", (1, n, n))
+        jf = j2 / 2 if j2 % 2 else j2 // 2
+        j = Fraction(j2, 2)
+        as_num = (lambda h: float(h) if j2 % 2 else int(h))
+        variants = _hel_variants(j2, ctx.rng)
+        xa = X.a
+        for with_lc in (False, True):
+            bad = None
+            cnt = 0
+            for la in variants:
+                for lb in variants:
+                    lcs = [None] if not with_lc else [v for v in variants[:3]]
+                    for lc in lcs:
+                        angle = {"alpha": shim.sym_tensor("al", (1,)), "beta": shim.sym_tensor("be", (1,)), "gamma": shim.sym_tensor("ga", (1,)), "D_matrix_%d" % j2: X}
+                        args = [angle, jf, tuple(as_num(h) for h in la), tuple(as_num(h) for h in lb)]
+                        if lc is not None:
+                            args.append(tuple(as_num(h) for h in lc))
+                        got = shim._arr(dfun.get_D_matrix_lambda(*args))
+                        want_shape = (1, len(la), len(lb)) + ((len(lc),) if lc is not None else ())
+                        cnt += 1
+                        if got.shape != want_shape:
+                            bad = bad or {"2j": j2, "la": [str(h) for h in la], "lb": [str(h) for h in lb], "lc": None if lc is None else [str(h) for h in lc],
+                                          "shape": list(got.shape), "expected_shape": list(want_shape)}
+                            continue
+                        for i, a in enumerate(la):
+                            for k, b in enumerate(lb):
+                                for l, c in enumerate(lc if lc is not None else [Fraction(0)]):
+                                    m2 = b - c
+                                    e = got[(0, i, k) + ((l,) if lc is not None else ())]
+                                    if abs(m2) > j:
+                                        ok = (isinstance(e, tm.C) and e.re is tm.ZERO and e.im is tm.ZERO) or e is tm.ZERO or e == 0
+                                    else:
+                                        w = xa[0, int(a + j), int(m2 + j)]
+                                        ok = isinstance(e, tm.C) and e.re is w.re and e.im is w.im
+                                    if not ok and bad is None:
+                                        bad = {"2j": j2, "la": [str(h) for h in la], "lb": [str(h) for h in lb], "lc": None if lc is None else [str(h) for h in lc],
+                                               "element": [i, k, l], "helicities": [str(a), str(b), str(c)], "got": str(e)[:120]}
+            ctx.check("selection_by_value/%s" % ("la_lb_lc" if with_lc else "la_lb"), bad is None,
+                      clause="get_D_matrix_lambda(angle, j, la, lb%s) returns, for every element, the entry of the D-matrix addressed by the helicity VALUES "
+                             "(m1 = la_i, m2 = lb_k%s; zero when |m2| > j), for full, reversed, rotated, shuffled and restricted helicity lists (%d list combinations, "
+                             "matrix entries arbitrary symbols)" % (", lc" if with_lc else "", " - lc_l" if with_lc else "", cnt), detail=str(bad), witness=bad)
+            ctx.count(key=(j2, with_lc), sample={"2j": j2, "combinations": cnt})
+
+    return g
+
+
+for _j2 in range(0, 7):
+    group(["C12", "C01", "C02"] if _j2 <= 3 else ["C12"], "dfun.get_D_matrix_lambda/selection/2j=%d" % _j2,
+          ["dfun:get_D_matrix_lambda", "dfun:Dfun_delta_v2", "dfun:delta_D_index", "dfun:delta_D_trans", "dfun:get_D_matrix_for_angle"],
+          env="shim", kind="P", plain=True, tiers=("quick", "thorough") if _j2 <= 4 else ("thorough",), cost=1 + _j2,
+          bound="2j = %d; helicity lists: full ascending, descending, rotated, shuffled, ends only, without 0, without first / last; la, lb (and lc) chosen independently" % _j2,
+          assumes=["the D-matrix tensor is taken from the cache slot angle['D_matrix_<2j>'] exactly as get_D_matrix_for_angle stores it; its entries are arbitrary symbols "
+                   "(weakest contract of D_matrix_conj: any tensor of shape (n, 2j+1, 2j+1)); tf.gather / tf.pad / tf.reshape op models (A-OPS)"])(_mk_lambda_selection(_j2))
